@@ -255,7 +255,22 @@ def rule_publish(cx):
         elif (isinstance(base, ast.Call) and isinstance(base.func, ast.Attribute) and base.func.attr == "get" and len(base.args) == 2
               and isinstance(base.args[1], (ast.List, ast.Tuple)) and not base.args[1].elts):
             reg, key = base.func.value, base.args[0]
-        if reg is None or not (isinstance(reg, ast.Attribute) and reg.attr == "_subscribers"):
+        cached = None
+        if reg is None and is_self_attr(base):
+            # the loop iterates an attribute of the publisher: where does it come from?
+            cls_ = enclosing_class(fn)
+            for b in self_assigns(cls_, base.attr):
+                v = b.value
+                if isinstance(v, ast.Call) and isinstance(v.func, ast.Attribute) and v.func.attr == "get" and isinstance(v.func.value, ast.Attribute) and v.func.value.attr == "_subscribers" \
+                        and len(v.args) == 2 and isinstance(v.args[1], (ast.List, ast.Tuple)):
+                    cached = (b, "a fresh empty list when the topic has no subscriber yet")
+                elif isinstance(v, ast.Call) and callee_name(v) in ("list", "tuple", "copy", "deepcopy") and "_subscribers" in unp(v):
+                    cached = (b, "a copy of the list")
+        if cached is not None:
+            b, what = cached
+            rep.fail(R_F, P + "iterates the whole list of self.topic", "publish iterates self.%s, which is filled once by `%s` (%s): a Subscriber registered after that first publish is never called"
+                     % (base.attr, unp(b), what), where=cx.where(rel, b))
+        elif reg is None or not (isinstance(reg, ast.Attribute) and reg.attr == "_subscribers"):
             rep.incomplete(R_F, P + "iterates the whole list of self.topic", "cannot relate the iterated expression %s to core._subscribers" % unp(base), where=cx.where(rel, site.node))
         else:
             rep.check(R_F, P + "iterates the whole list of self.topic", unp(reg) == reg_text and unp(key) == key_text,
